@@ -1,11 +1,11 @@
-SPECIFICATION Spec
+SPECIFICATION SpecDump
 CONSTANTS
   MCCat <- CatCustom
   MCSub <- SubCustom
   RootClasses <- RootsCustom
   FilterStrs <- FilterCustom
   AssignSpecs <- AssignCustom
-  MaxSteps = 1
+  MaxSteps = 2
   DirectCalls = TRUE
 CONSTRAINT Bound
 ACTION_CONSTRAINT Dump
